@@ -372,6 +372,31 @@ def stepHist (w : World) (ws : List String) : Option (World × String) :=
     else
       let c := consumeList pat m.iterElements
       pure (w', "ok " ++ showList (fun (p : Nat × String) => s!"{p.1}:{p.2}") c)
+  | ["iteradapt", r, variant, adaptor] => do
+    -- element iterators consumed through ONE iterator adaptor (an iterator type may override
+    -- nth / nth_back / fold-based methods); "into*" variants consume the matrix
+    let r ← r.toNat?
+    let m ← w.get r
+    let w' := if variant.startsWith "into" then w.set r none else w
+    let items : M (List String) :=
+      if (variant.splitOn "wi").length > 1 then
+        m.iterWithIndex.map fun l => l.map fun (p : Index × String) => s!"{p.1.row}.{p.1.col}={p.2}"
+      else .ok m.iterElements
+    match items with
+    | .error e => pure (w', faultStr e)
+    | .ok l =>
+      let opt := fun (o : Option String) => o.getD "-"
+      let everyOther := (l.drop 1).zipIdx.filterMap fun p => if p.2 % 2 = 0 then some p.1 else none
+      let res :=
+        if adaptor = "n1" then opt l[1]?
+        else if adaptor = "nb1" then opt l.reverse[1]?
+        else if adaptor = "ss" then showList id everyOther
+        else if adaptor = "tr" then showList id (l.take 2).reverse
+        else if adaptor = "rs" then showList id (l.reverse.drop 1)
+        else if adaptor = "last" then opt l.getLast?
+        else if adaptor = "count" then toString l.length
+        else showList id l   -- fold: every item, in order
+      pure (w', "ok " ++ res)
   | ["mulz", side, oa, n, k, ob, m] => do
     -- product with ONE operand of zero-sized elements (each acts as a multiplicative unit): numeric
     -- operand values 1, 2, …; the zero-sized operand takes the zero-sized paths of the model
